@@ -5,7 +5,7 @@ import PoetryVerif.Model.Build
 import PoetryVerif.Model.Version
 import PoetryVerif.Model.VParser
 
-namespace Poetry.Drv
+namespace Poetry.Drv.BuildH
 open Poetry Poetry.Proto Poetry.Build
 
 def us : String := "\x1f"
@@ -121,4 +121,7 @@ def handleBuild (op : String) (args : List String) : Option String :=
     | _, _ => "bad-arg"
   | _, _ => none
 
-end Poetry.Drv
+end Poetry.Drv.BuildH
+
+/-- registered in Driver.lean -/
+def Poetry.Drv.handleBuild := Poetry.Drv.BuildH.handleBuild
